@@ -30,3 +30,36 @@ def run(ctx: Ctx):
         if d:
             ctx.violation("failing-input", "tracker", trk.small(c), dict(d, theorem="Ladim.C09.out_of_grid_dies / land_cancel (the model's step is the specified step)"),
                           tags=dict(first=d.get("what")))
+
+    # ---- whole simulations: several release times with deaths in between; a pid that has left the records never comes back
+    from harness import scen
+
+    def contiguous(sc, real):
+        bad = []
+        seen, gone = set(), set()
+        pos = 0
+        for f in real["files"]:
+            if "unreadable" in f or sc["layout"] != "sparse":
+                continue
+            p = 0
+            for n, c in enumerate(f["count"]):
+                pids = set(f["pid"][p:p + c]); p += c
+                back = pids & gone
+                if back:
+                    bad.append(f"{f['name']} record {n}: pids {sorted(back)} had left the records and are back")
+                if len(pids) != c:
+                    bad.append(f"{f['name']} record {n}: a pid occurs twice")
+                gone |= (seen - pids); seen |= pids
+        return bad
+
+    ne = 40 if ctx.thorough else 10
+    ecases = []
+    for k in range(ne):
+        sc = scen.gen(ctx.seed * 100000 + 9500 + k, layout="sparse", kills=True, speed=[1.0, 2.0][k % 2], continuous=False, nsteps=10, period=1,
+                      scheme=["EF", "RK2", "RK4"][k % 3], rev=False, numrec=0)
+        r0 = sc["rows"][0]
+        # three release times; the particles of the second one are killed before the third
+        sc["rows"] = [dict(r0, step=0, mult=2), dict(r0, step=3, mult=2), dict(r0, step=6, mult=2)]
+        sc["kill"] = {"1": [1], "4": [2, 3]}
+        ecases.append(sc)
+    scen.e2e_stream(ctx, "whole-run-deaths", ecases, "Ladim.C09.dead_stay_dead / Ladim.Whole.records_valid", monitor=contiguous)
